@@ -1,3 +1,5 @@
+import Proofs.EcdsaInstToy
+import Proofs.EcdsaInstCurve
 import Proofs.EcdsaEntry
 import Proofs.EcdsaKeys
 import Proofs.EcdsaToy
@@ -79,5 +81,28 @@ example : fromSecretExponent Toy.ops 3 = .ok (3 : ZMod 7)
     ∧ signDigestDeterministic Toy.ops 3 [0x20] (fun i => .ok (i + 2 : ℕ)) encString true 5 0 = some (.ok [3, 1])
     ∧ verifyDigest Toy.ops (3 : ZMod 7) Util.sigdecodeString [3, 1] [0x20] true = .ok true := by
   decide +kernel
+
+/-! ### the same, for the model of the real point classes
+`Ecdsa.OnCurve.ops c` is what the model driver executes (`Model/EcdsaCurve.lean` over `Model/Curve.lean`: the
+`PointJacobi` code as written).  `OnCurve.Matches c C`: odd prime field `p`, the curve parameters of `c`, a group
+context `C` (Mathlib's curve group, base point `C.G` with `n • G = 0`, `n` an odd prime) and the generator object
+denotes `C.G`; point objects are `OnCurve.Valid` (INFINITY or a `PointJacobi` denoting an element of ⟨G⟩, declared
+order `n` or none).  The interface `PointOpsCorrect` is *proved* for it (Proofs/EcdsaInstCurve.lean, from C06/C07). -/
+section OnCurve
+open GroupInterface
+variable {p : ℕ} [Fact p.Prime] {a b : ℤ}
+
+theorem sign_then_verify_on_curve {β σ : Type} (c : Affine.Crv) (C : Ctx p a b) (M : OnCurve.Matches c C)
+    (d : ℤ) (hd : 1 ≤ d ∧ d < c.n) (dg : Bytes) (k : Option ℤ) (rand : ℤ → Res ℤ)
+    (enc : ℤ → ℤ → ℤ → Res β) (wrap : β → σ) (dec : σ → ℕ → Res (ℕ × ℕ)) (hcodec : Codec enc wrap dec c.n)
+    (allow : Bool) (sig : β) (hsig : signDigest (OnCurve.ops c) d dg k rand enc allow = .ok sig) :
+    ∃ Q, fromSecretExponent (OnCurve.ops c) d = .ok Q ∧
+      verifyDigest (OnCurve.ops c) Q dec (wrap sig) dg allow = .ok true := by
+  obtain ⟨Q, hQ, vQ, dQ⟩ := key_pair_ok (OnCurve.pointOpsCorrect c C M) d hd
+  exact ⟨Q, hQ, sign_then_verify (OnCurve.pointOpsCorrect c C M) d Q vQ dQ dg k rand enc wrap dec hcodec allow sig hsig⟩
+
+example : ∃ C : Ctx 11 1 6, OnCurve.Matches OnCurve.toyCrv C := OnCurve.toy_matches
+
+end OnCurve
 
 end C01
